@@ -11,6 +11,7 @@ mod c08;
 mod c09;
 mod c10;
 mod c11;
+mod c12;
 mod c13;
 mod c14;
 mod c15;
@@ -28,6 +29,7 @@ fn main() {
     match args.prop.to_lowercase().as_str() {
         "c10" => c10::run(&args, &mut rep),
         "c11" => c11::run(&args, &mut rep),
+        "c12" => c12::run(&args, &mut rep),
         "c13" => c13::run(&args, &mut rep),
         "c14" => c14::run(&args, &mut rep),
         "c15" => c15::run(&args, &mut rep),
